@@ -172,7 +172,7 @@ def handle_islands(case):
         try:
             algo = Algorithm(type="sade", generations=1, population_size=case["pop"])
             arch = ArchipelagoDataTree(num_islands=case["n"], udi=DaskIsland(), algorithm=algo,
-                                       problem=vp.SlowProblem(case.get("scale", 0.0) if par else 0.0),
+                                       problem=vp.SlowProblem(case.get("scale", 0.0) if par else 0.0), topology=pg.unconnected(),
                                        pop_size=case["pop"], pygmo_seed=case["seed"], parallel=par)
             isl = []
             for island in arch._pygmo_archi:
